@@ -73,6 +73,25 @@ pub mod proofs {
         end(r, 1);
     }
 
+    /// thorough tier: the over-long socket path named in the property (108 bytes of path do not fit
+    /// sockaddr_un): rejected before any descriptor exists, for connect and for bind
+    #[kani::proof]
+    #[kani::unwind(112)]
+    pub fn c12_t_unix_over_long_path() {
+        let mut b = [b'a'; 110];
+        b[109] = 0;
+        let cut: usize = kani::any();
+        kani::assume(cut >= 106 && cut <= 109); // content lengths 106..109: around the 107/108 limit
+        b[cut] = 0;
+        let p = unsafe { UnixStr::from_bytes_unchecked(&b[..=cut]) };
+        begin();
+        if kani::any() {
+            end(UnixStream::connect(p), 1);
+        } else {
+            end(UnixListener::bind(p), 1);
+        }
+    }
+
     #[kani::proof]
     #[kani::unwind(10)]
     pub fn c12_unix_stream_try_connect() {
